@@ -312,6 +312,16 @@ def _run_chunk(jobs):
     return [_run_job(j) for j in jobs]
 
 
+def _default_procs():
+    """Simulator processes: up to 8, fewer when the machine is already oversubscribed."""
+    n = os.cpu_count() or 2
+    try:
+        load = os.getloadavg()[0]
+    except OSError:
+        load = 0
+    return max(2, min(8, n) // (4 if load > 2 * n else 2 if load > n else 1))
+
+
 def run_jobs(jobs, procs):
     if procs <= 1 or len(jobs) < 8:
         return _run_chunk(jobs)
@@ -586,7 +596,7 @@ def _observed_symbols(steps, note):
 def check_C25(rep):
     quick = rep.tier == "quick"
     rng = rep.rng
-    procs = int(os.environ.get("VERIF_PROCS", min(8, os.cpu_count() or 2)))
+    procs = int(os.environ.get("VERIF_PROCS", 0)) or _default_procs()
     rep.rule = ("packets driven through the real GatewarePHY and validated by TLC against FsPhy/LineCode; a case is "
                 "non-trivial when a whole packet was transmitted or received (or a control request changed); distinct by "
                 "(direction, bytes, idle tx_data / sampling phase / rate offset / violated stuff bit) resp. "
@@ -605,7 +615,7 @@ def check_C25(rep):
 
     # 1. exhaustive exploration of the specification; TLC writes the vectors with the predicted symbols
     alphabet = [0x00, 0xFF, 0x7F, 0xFE, 0x80, 0x3F] + ([] if quick else [0x01, 0xFC])
-    vecs = exhaustive_vectors(rep, alphabet, 3, range(1, 9) if quick else range(1, 13), workers=procs)
+    vecs = exhaustive_vectors(rep, alphabet, 3, range(1, 9) if quick else range(1, 13), workers=None)
 
     # 2. packets beyond the bounds, encoded by TLC on request
     def pid():
@@ -676,6 +686,36 @@ def check_C25(rep):
                 items.append(B.rx_burst([(rng.choice(rx_pool), None) for _ in range(rng.randint(1, 2))],
                                         rng.randrange(4), rng.choice([-25, 0, 0, 25]), sub=rng.randrange(UNITS)))
         B.add("pkt", {"idle0": rng.randint(2, 7), "idle0_data": prev, "items": items, "tail": 6}, "mixed:turnaround")
+
+    # 3c'. systematic alignment sweeps: start of a transmission against the free-running bit strobe / shifter
+    #      (every offset 0..15), gap between two transmissions, gap between two received packets (at every phase),
+    #      both turn-arounds
+    def vec_of(data):
+        return next(v for v in vecs + xvecs if v["bytes"] == data)
+    for off in range(16):
+        B.add("pkt", {"idle0": 3 + off, "idle0_data": 0x55, "items": [B.tx_item([0xC3, 0xFF, 0x7F], 0x55, idle=0x55, gap=0)],
+                      "tail": 4}, "tx:sweep start offset %d" % off)
+    for g in range(1, 13):
+        B.add("pkt", {"idle0": 4, "idle0_data": 0, "items": [B.tx_item([0x4B, 0x00, 0xFF], 0, idle=0, gap=1),
+                                                              B.tx_item([0xD2], 0, idle=0x24, gap=g)], "tail": 4},
+              "tx:sweep gap %d" % g)
+    va, vb = vec_of([0xFF, 0x7F]), vec_of([0x80])
+    for g in range(1, 11):
+        for ph in range(4):
+            burst = B.rx_burst([(va, None), (vb, None)], ph)
+            burst["pkts"][0]["gap"], burst["pkts"][1]["gap"] = 3, g
+            B.add("pkt", {"idle0": 3, "items": [burst], "tail": 6}, "rx:sweep gap %d phase %d" % (g, ph))
+    for drain in range(0, 5):
+        for g in range(1, 4):
+            burst = B.rx_burst([(va, None)], (drain + g) % 4)
+            burst["drain"] = drain
+            B.add("pkt", {"idle0": 3, "items": [burst, B.tx_item([0xD2], 0, idle=0, gap=g)], "tail": 5},
+                  "mixed:sweep rx->tx drain %d gap %d" % (drain, g))
+    for g in range(2, 9):
+        burst = B.rx_burst([(vb, None)], g % 4)
+        burst["pkts"][0]["gap"] = g
+        B.add("pkt", {"idle0": 3, "items": [B.tx_item([0xD2, 0xFF], 0, idle=0, gap=1), burst], "tail": 5},
+              "mixed:sweep tx->rx gap %d" % g)
 
     # 3d. witness stimuli of the transmit findings
     for off in range(56):          # the stall depends on the phase of the free-running shifter (8) and stuffer (7)
